@@ -359,3 +359,27 @@ PROPS["C08"] = dict(
                "blake3 / keccak and the KAWPOW / ProgPoW kernels themselves are trusted; only the caching around KAWPOW is tested.",
     assumptions=["the hash functions are collision resistant", "protobuf encoding of the seal pre-image is injective on its fields (C14)"],
 )
+
+PROPS["C19"] = dict(
+    lean_modules=["QuaiVerif.Props.C19"],
+    areas=[dict(name="c19", n_quick=20, n_thorough=400, seeds_thorough=3, n_search=60, timeout=3000, confirm_diff=True)],
+    rule="a case is one history of 12-36 operations on the real core.TxPool over a scripted chain (real StateDB and blocks, harness-driven head feed, 1 ms "
+         "reorg tick): submissions for 3 accounts - next nonce, gaps of 1-3, same-nonce replacements priced at old, old+1, 105% -1 / exactly / +1 and 200%, "
+         "stale nonces, unaffordable values, resubmissions of earlier transactions - blocks that include a prefix of the accounts' pending lists with "
+         "balance changes, and reorgs to a longer sibling branch that includes none of them (re-injection) with balance changes; after every operation the "
+         "pool settles and each account's (pending, queued) lists are compared with the model and the invariants are checked on Content / Stats / Get; "
+         "every fifth case floods a pool with limits 4/12/3/8 from 4 goroutines (AddRemotes / AddLocal, 240 transactions over 5 accounts, nonces 0-13) while "
+         "6 blocks arrive, then checks invariants, limits and termination",
+    level_text="'every reachable per-account state has a pending list that is nonce-contiguous from the state nonce' (induction over histories of submissions "
+               "and head changes), 'after a head change every pending transaction is affordable and not stale', the replacement rule (strictly higher price "
+               "and the configured bump, else rejected; ok means the nonce was free) and 'a rejected submission changes nothing' are Lean theorems over "
+               "the per-account pool model (add / promote / reset with re-injection / demotion); the model runs in lock-step with the real pool.",
+    level_note="PARTIAL: proofs cover the sequential per-account core. Not modelled: the global limits and price-based eviction (truncatePending / "
+               "truncateQueue / priced heap; checked on the real pool only), lifetime eviction, the journal, the Qi pool, gas-price changes, and - the "
+               "property's 'any interleaving' - concurrency: the flood cases and the race detector (thorough tier builds the harness with -race when "
+               "VERIF_RACE=1) sample schedules, they do not cover them. 'No nonce both pending and queued' and index = lists are checked on the real pool at "
+               "every quiescent point, not proved. Quiescence is detected by polling (7 identical snapshots 3 ms apart); a model disagreement without an "
+               "invariant violation is re-run before it is reported.",
+    assumptions=["accounts are independent in the pool (per-account lists; the global limits are out of the model)",
+                 "a transaction's validity against the state is nonce >= state nonce and cost <= balance (gas limit and base-fee floor are kept satisfied by the generator)"],
+)
